@@ -256,6 +256,137 @@ fn run_sched(c: &SchedCase) -> CaseResult {
     }
 }
 
+// ------------------------------------------------------------------------------------------
+// "while a steady ticker is installed, manual tick() calls do not advance the spinner"
+
+/// custom key that prints nothing and records which shuttle thread delivered each tick notification
+#[derive(Clone)]
+struct Who(Arc<std::sync::Mutex<Vec<shuttle::thread::ThreadId>>>);
+
+impl indicatif::style::ProgressTracker for Who {
+    fn clone_box(&self) -> Box<dyn indicatif::style::ProgressTracker> {
+        Box::new(self.clone())
+    }
+    fn tick(&mut self, _: &indicatif::ProgressState, _: std::time::Instant) {
+        self.0.lock().unwrap().push(shuttle::thread::current().id());
+    }
+    fn reset(&mut self, _: &indicatif::ProgressState, _: std::time::Instant) {}
+    fn write(&self, _: &indicatif::ProgressState, _: &mut dyn std::fmt::Write) {}
+}
+
+#[derive(Debug, Clone, Serialize, Deserialize)]
+pub struct ManualCase {
+    in_multi: bool,
+    /// manual calls of the first thread: tick / inc / set_position in turn
+    manual: u8,
+    /// enable_steady_tick calls of the second thread (each replaces the installed ticker)
+    replaces: u8,
+    /// a third thread calls update()
+    updater: bool,
+    timeout_budget: u8,
+    pct_depth: Option<u8>,
+    seed: u64,
+    schedules: u32,
+}
+
+fn body_manual(c: &ManualCase) {
+    verif_sync::reset(c.timeout_budget as usize);
+    let spy = Spy::default();
+    let mut mp = None;
+    let pb = if c.in_multi {
+        let m = MultiProgress::with_draw_target(ProgressDrawTarget::term_like(Box::new(spy.clone())));
+        let pb = m.add(ProgressBar::with_draw_target(Some(10), ProgressDrawTarget::hidden()));
+        mp = Some(m);
+        pb
+    } else {
+        ProgressBar::with_draw_target(Some(10), ProgressDrawTarget::term_like(Box::new(spy.clone())))
+    };
+    let who = Arc::new(std::sync::Mutex::new(vec![]));
+    pb.set_style(ProgressStyle::with_template("{spinner} {pos}/{len}").unwrap().with_key("verif_who", Who(who.clone())));
+    // installed for the whole program; replaced, never removed
+    pb.enable_steady_tick(interval(3));
+    let manual_id = Arc::new(std::sync::Mutex::new(None));
+    let mut hs = vec![];
+    {
+        let (pb, manual_id, n) = (pb.clone(), manual_id.clone(), c.manual.clamp(1, 4));
+        hs.push(shuttle::thread::spawn(move || {
+            *manual_id.lock().unwrap() = Some(shuttle::thread::current().id());
+            for k in 0..n {
+                match k % 3 {
+                    0 => pb.tick(),
+                    1 => pb.inc(1),
+                    _ => pb.set_position(k as u64),
+                }
+            }
+        }));
+    }
+    {
+        let (pb, n) = (pb.clone(), c.replaces.clamp(1, 3));
+        hs.push(shuttle::thread::spawn(move || {
+            for r in 0..n {
+                pb.enable_steady_tick(interval(2 + r % 2));
+            }
+        }));
+    }
+    if c.updater {
+        let pb = pb.clone();
+        hs.push(shuttle::thread::spawn(move || pb.update(|s| s.set_pos(s.pos() + 1))));
+    }
+    for h in hs {
+        h.join().expect("worker thread panicked");
+    }
+    let id = manual_id.lock().unwrap().expect("manual thread ran");
+    let n = who.lock().unwrap().iter().filter(|t| **t == id).count();
+    // tear down first: a panic while the ticker is installed would run the destructors (which join
+    // the ticker thread) during unwinding
+    pb.disable_steady_tick();
+    let live = verif_sync::live_threads();
+    drop(pb);
+    drop(mp);
+    assert_eq!(n, 0, "LIFECYCLE: {n} manual tick()/inc()/set_position() call(s) advanced the spinner although a steady ticker was installed the whole time");
+    assert_eq!(live, 0, "LIFECYCLE: a steady-tick thread is still alive after disable_steady_tick() returned");
+}
+
+fn run_manual(c: &ManualCase) -> CaseResult {
+    let case = Arc::new(c.clone());
+    let mut cfg = shuttle::Config::new();
+    cfg.failure_persistence = shuttle::FailurePersistence::None;
+    cfg.max_steps = shuttle::MaxSteps::FailAfter(200_000);
+    let iters = c.schedules.max(1) as usize;
+    let c2 = case.clone();
+    let r = catch(move || match c2.pct_depth {
+        Some(d) => shuttle::Runner::new(PctScheduler::new_from_seed(c2.seed, d.clamp(1, 5) as usize, iters), cfg).run({
+            let c3 = c2.clone();
+            move || body_manual(&c3)
+        }),
+        None => shuttle::Runner::new(RandomScheduler::new_from_seed(c2.seed, iters), cfg).run({
+            let c3 = c2.clone();
+            move || body_manual(&c3)
+        }),
+    });
+    match r {
+        Ok(_) => {
+            let mut v = Verdict::default();
+            v.nontrivial = true;
+            v.label("manual_calls_race_with_ticker_replacement");
+            v.label_if(c.updater, "with_update_thread");
+            v.label_if(c.in_multi, "inside_multi_progress");
+            v.label_if(c.pct_depth.is_some(), "pct_scheduler");
+            Ok(v)
+        }
+        Err(msg) => {
+            let kind = if msg.contains("deadlock") {
+                "deadlock"
+            } else if msg.contains("LIFECYCLE") {
+                "ticker_lifecycle"
+            } else {
+                "panic"
+            };
+            Err(Fail::new(kind, format!("{c:?}: {msg}")))
+        }
+    }
+}
+
 fn call_strategy() -> BoxedStrategy<Call> {
     prop_oneof![
         4 => Just(Call::Update),
@@ -319,6 +450,22 @@ pub fn property() -> Property {
             run: run_sched,
             signature: no_signature,
             essential: &["shared_handle_with_ticker_or_update", "inside_multi_progress", "three_threads", "pct_scheduler", "timeouts_may_fire", "several_schedules"],
+            workers: default_workers(),
+            decode: None,
+        }),
+        Box::new(Gen::<ManualCase> {
+            name: "manual_ticks",
+            rule: "a steady ticker (10 days) is installed for the whole program; one thread issues 1-4 manual tick()/inc()/set_position() calls, another replaces the ticker 1-3 times with enable_steady_tick, optionally a third calls update(); 200 (thorough 3000) random or PCT schedules per program; a custom key records which thread delivered each tick notification: none may come from the manual thread; afterwards disable_steady_tick leaves no ticker thread",
+            strategy: |t| {
+                let schedules = t.pick(200u32, 3000);
+                (any::<bool>(), 1u8..=4, 1u8..=3, any::<bool>(), 0u8..4, proptest::option::weighted(0.3, 1u8..4), any::<u64>())
+                    .prop_map(move |(in_multi, manual, replaces, updater, timeout_budget, pct_depth, seed)| ManualCase { in_multi, manual, replaces, updater, timeout_budget, pct_depth, seed, schedules })
+                    .boxed()
+            },
+            cases: |t| t.pick(40, 800),
+            run: run_manual,
+            signature: no_signature,
+            essential: &["manual_calls_race_with_ticker_replacement", "with_update_thread", "inside_multi_progress", "pct_scheduler"],
             workers: default_workers(),
             decode: None,
         })],
